@@ -57,9 +57,9 @@ Definition hs_step (s : hs) (e : sevent) : hs * list sout :=
     else
       (* Linktest.rsp, Reject.req, Separate.req: only a waiting requester is served *)
       if queued s system then (unqueue s system, [OutResolve system]) else (s, [])
-  | EvData system _ =>
+  | EvData system w _ =>
     if negb (is_selected s) then (s, [OutReject system 4])
-    else if queued s system then (unqueue s system, [OutResolve system]) else (s, [OutDeliver system])
+    else if queued s system && negb w then (unqueue s system, [OutResolve system]) else (s, [OutDeliver system])
   end.
 
 Fixpoint hs_run (s : hs) (es : list sevent) : hs * list (list sout) :=
